@@ -426,6 +426,15 @@ pub fn run_typer() {
                     Err(e) => format!("err{}", e.code()),
                 }
             }
+            // declared <form 0 parameter|1 member|2 constant|3 local> <type|err>: what the mutability pass records
+            "declared" => {
+                let vt = if w[2] == "err" { Err(penne::alpha::error::Poison::Poisoned) } else { Ok(P { s: w[2].as_bytes(), i: 0 }.cty()) };
+                match penne::alpha::analyzer::verif_mutability_hooks::recorded_mutability(w[1].parse().unwrap(), vt) {
+                    Some(true) => "mutable".to_string(),
+                    Some(false) => "immutable".to_string(),
+                    None => "none".to_string(),
+                }
+            }
             // align <structural type> <member type>*
             "align" => {
                 let st = P { s: w[1].as_bytes(), i: 0 }.cty();
